@@ -111,7 +111,7 @@ PROPS['C10'] = dict(
     level='exploration', builds={'rdl_race': dict(pkg='./cmd/rdl', overlay='shim', race=True)},
     stages=[dict(name='scripts@timer%d' % m, bin='rdl_race', shards=shards(2, 6), par=4, env={'GODEBUG': 'asynctimerchan=%d' % m},
                  crash_is_violation=True, crash_key='rdl:crash', timeout=1800) for m in (1, 0)],
-    need_counters=['reads_timeout', 'reads_data', 'parked_reads', 'scripts_vnet', 'scripts_udp', 'scripts_bridge', 'scripts_dpipe', 'scripts_buffer'],
+    need_counters=['reads_timeout', 'reads_data', 'parked_reads', 'scripts_vnet', 'scripts_vnet-conn', 'noise_datagrams_to_connected_socket', 'scripts_udp', 'scripts_bridge', 'scripts_dpipe', 'scripts_buffer'],
 )
 PROPS['C17'] = dict(
     level='exploration', builds={'ctxio_race': dict(pkg='./cmd/ctxio', overlay='shim', race=True), 'ctxsched': dict(pkg='./cmd/ctxsched', overlay='yield')},
